@@ -120,6 +120,27 @@ MANIFEST_TEXT.update({
     "C14": {"level_text": "pass/drop of only_uid, exclude_uid, only_root compared with exact membership of the simulated real uid, for boundary uids, near-miss lists and unrelated effective uids; complementarity checked directly", "level_note": _ASSUME},
     "C15": {"level_text": "pass/drop of exclude_spawns_of compared with the reference walk over the simulated /proc tree (proper ancestors only, unreadable => pass)", "level_note": _ASSUME},
 })
+CHECKS.update({
+    "C03": {
+        "variants": ["asan-ts"], "level": "fault_enumeration", "claims_sanitizer": True,
+        "quick": T(40000, 60), "thorough": T(1200000, 900),
+        "rule": "seeds come in families of 400: slot 0 is the fault-free census of one wrapped call in a sampled (world, sink state, output, format) scenario; slots 1..n enumerate every single fault = (intercepted call of the census) x (plausible errno set of that call kind, plus short read/write and early EOF); remaining slots are sampled fault pairs. "
+                "Sink states: healthy, directory absent, EACCES, (nearly) full disk, socket path absent / refused / no permission / queue full and unread / stream-type. non-trivial = the fault fired inside the call (or census); distinct = (scenario, fault kind, n-th, errno)",
+        "probes": ["census", "pair", "queue_full", "eagain_seen", "enospc"],
+        "extra_coverage": {"errno_sets": "open: ENOENT EACCES EMFILE ENFILE ENOMEM ELOOP ENOTDIR EISDIR EROFS ENXIO ENOSPC; read: EIO EINTR short eof; write: ENOSPC EIO EDQUOT EFBIG EINTR short; close: EIO ENOSPC; socket: EMFILE ENFILE ENOBUFS EAFNOSUPPORT ENOMEM EACCES; connect: ENOENT ECONNREFUSED EACCES EAGAIN EPROTOTYPE; send: EAGAIN ECONNREFUSED ENOTCONN EMSGSIZE ENOBUFS EPIPE ECONNRESET; stat ttyname_r getcwd gethostname getlogin_r getpwuid_r getgrgid_r time gettimeofday: their documented errors"},
+    },
+    "C16": {
+        "variants": ["asan-ts", "asan-nots"], "level": "fault_enumeration",
+        "quick": T(24000, 60), "thorough": T(600000, 900),
+        "rule": "families of 400 seeds: three of four families = warm-up call + 3 identical calls under the census-driven single-fault enumeration of C03 (error paths), the fourth = a configuration with duplicate and invalid options and 2-40 (thorough: 2-200) fault-free repeats; "
+                "snapshots before the call, at EXEC and after return: simulated fd table, real /proc/self/fd, library-attributed live heap (sanitizer malloc/free hooks), environ checksum, cwd, umask, signal mask and dispositions; non-trivial = fault fired or repeat family; distinct = (scenario, fault) or (repeat bucket, config hash)",
+        "probes": ["census", "pair", "repeat", "repeat_ge_100", "duplicate_option", "enospc"],
+    },
+})
+MANIFEST_TEXT.update({
+    "C03": {"level_text": "fault enumeration: for each sampled scenario every intercepted call of the fault-free census fails once with each errno of its kind's set (plus short/EOF variants), and pairs are sampled; invariants per run: real exec reached exactly once with the caller's result delivered, no simulated call that would wait for a peer (send on a full queue with neither O_NONBLOCK nor MSG_DONTWAIT, syslog(), sleep/poll/lock), no SIGPIPE-raising write, step bound 4 x census + 64, no sanitizer abort", "level_note": _ASSUME + "; allocation failure is outside the domain; EPIPE raises no SIGPIPE on AF_UNIX datagram sockets (probed on this kernel)"},
+    "C16": {"level_text": "before/at-exec/after snapshots of descriptors (simulated and real), library-attributed live heap, environ, cwd, umask, signal mask and handlers over repeated calls, fault-free and under the single-fault enumeration of C03, in both builds", "level_note": _ASSUME + "; heap attribution = allocations made while the calling thread is inside the library (sanitizer hooks), one warm-up call excluded"},
+})
 for _e in list(NOT_APPLICABLE):
     if _e["property_id"] in CHECKS:
         NOT_APPLICABLE.remove(_e)
